@@ -35,7 +35,7 @@ def declare(ct):
     F("VHCT", partition="ref:Partition", iteration="int", nu="real", rho="real", delta="real", bound="real", c="real",
       c1="real", curr_node="ref:$N", path="list[ref:$N]", late=("curr_node", "path"))
 
-    F("DOO", partition="ref:Partition", iteration="int", n="int", curr_node="ref:$N", late=("curr_node", "delta"))
+    F("DOO", partition="ref:Partition", iteration="int", n="int", curr_node="ref:$N", delta="fn", late=("curr_node", "delta"))
     F("SOO", partition="ref:Partition", iteration="int", n="int", h_max="int", curr_node="ref?:$N")
     F("StoSOO", partition="ref:Partition", iteration="int", n="int", k="real", delta="real", h_max="int", b_max="float",
       max_b_node_ind="int", max_b_node_h="int", late=("b_max", "max_b_node_ind", "max_b_node_h"))
